@@ -9,19 +9,29 @@ K_NOTE = ('Trusted base: Kani 0.68 codegen + CBMC 6.11/CaDiCaL; the stubs and co
           'message shapes / lengths / cut offsets are enumerated, contents are universally quantified; bounded by the loop and recursion bounds in the evidence '
           '(unwinding assertions on); counterexamples are reported only after native replay against the unmodified crate.')
 
+BMC = 'Kani-compiled harnesses over the real crate, decided by CBMC (SAT, CaDiCaL) for all values of the symbolic input bytes; auto-deepened unwinding bounds with unwinding assertions; native replay of counterexamples'
 CLAIMED = {
-    'C02': ('DESIGN.md C02', 'bounded model checking: for every value tag and every value length 0..=12 with arbitrary body bytes the value decoder returns without panicking; reader primitives and drive loops on arbitrary short tails',
-            'Kani harnesses + CBMC (SAT), auto-deepened unwinding bounds, native replay'),
-    'C04': ('DESIGN.md C04', 'bounded model checking: for each wire shape of the catalogue (incl. forms the encoder never emits) and ALL header/value contents the parser result equals an independent reference interpretation',
-            'Kani harnesses + CBMC (SAT) against a generated RFC 8010 reference interpretation'),
-    'C16': ('DESIGN.md C16', 'bounded model checking over the full finite domains: all 65536 status codes, all 256 tag bytes, all i32 enum values, against registry tables embedded in the harness',
-            'Kani harnesses + CBMC (SAT) over complete finite domains'),
+    'C01': ('DESIGN.md 2/C01', 'bounded model checking: for each shape of the catalogue (every scalar kind, homogeneous and mixed sets, groups; collections in the thorough tier) and ALL header/value contents: build -> encode -> parse returns the same header, groups, names and values', BMC),
+    'C02': ('DESIGN.md 2/C02', 'bounded model checking: value decoder total for every tag x every length 0..=12 x all body bytes (with-language: all inner length pairs); parsed messages can be cloned, re-encoded and dropped', BMC),
+    'C03': ('DESIGN.md 2/C03', 'bounded model checking: encoder output == an independently generated RFC 8010 reference encoding, byte for byte, for every shape (incl. collections, mixed sets) and all contents, under every enumerated attribute-map order', BMC + '; reference encoder generated from the RFC text (gen/shapes.py)'),
+    'C04': ('DESIGN.md 2/C04', 'bounded model checking: for each wire shape (incl. forms the encoder never emits) and ALL contents the parser result equals an independent reference interpretation; collections only in the thorough tier (open risk)', BMC),
+    'C06': ('DESIGN.md 2/C06', 'bounded model checking: parse_parts under enumerated fragmentation schedules (full, 1-byte, alternating 1/2, 1-byte with Interrupted) x all contents x all payload bytes: same result, reader position == end tag + 1, payload byte-identical', BMC),
+    'C07': ('DESIGN.md 2/C07', 'bounded model checking: every cut offset of the shape is rejected with UnexpectedEof; a source failing at every offset yields Err(IoError) with the injected kind (all 8 kinds at 3 offsets, one kind at every offset), all contents', BMC),
+    'C08': ('DESIGN.md 2/C08', 'bounded model checking: into_read / into_async_read / IppPayload streams == to_bytes() ++ payload ++ EOF for empty, blocking (fragmenting, interrupting) and async (pending) payload sources, consumer buffer sizes cycling 1,2,5,16, all payload bytes', BMC + '; futures_executor::block_on modelled by a poll loop'),
+    'C09': ('DESIGN.md 2/C09', 'bounded model checking: operation group first, charset, language, printer-uri, job-id in that order for the job operations and adverse addition orders, under every enumerated permutation of the free map entries; counterexample orders replayed on fresh randomly keyed std HashMaps', BMC),
+    'C10': ('DESIGN.md 2/C10', 'bounded model checking: each of the 10 operations and both raw constructors yields exactly the header, groups, attributes (names, syntaxes, values) and payload its arguments describe, for all argument values of the enumerated lengths', BMC),
+    'C13': ('DESIGN.md 2/C13', 'symbolic execution of the MIR of canonicalize_uri over an abstract parsed-URI record with unbounded SMT strings: every path yields scheme ipp, same host/port/path, no user-info, no query; idempotent; the fallback branch is unreachable for absolute URIs; constructor data flow checked on the MIR', 'MIR -> SMT-LIB (strings + integers), z3 cross-checked with cvc5, axiomatised http::Uri accessors validated against the real crate, native replay'),
+    'C14': ('DESIGN.md 2/C14', 'symbolic execution of the MIR of ipp_uri_to_string over the abstract URI record: result == scheme mapping + authority + default port 631 + path-and-query on every path (the ipps->443 arm is a listed known finding)', 'MIR -> SMT-LIB (strings + integers), z3 cross-checked with cvc5, axiomatised http::Uri accessors validated against the real crate, native replay'),
+    'C16': ('DESIGN.md 2/C16', 'bounded model checking over complete finite domains: all 65536 status codes and operation ids, all 256 tag bytes, all 2^32 enum values, against registry tables embedded in the harness', BMC),
+    'C17': ('DESIGN.md 2/C17', 'bounded model checking: any status x any printer-state value x EVERY keyword of each length 4,6,8,9,19 (thorough: all lengths 1..19) as single value or in sets at each position: error iff status unsuccessful, not-ready iff stopped or a blocking keyword is present', BMC),
+    'C19': ('DESIGN.md 2/C19', 'bounded model checking: every history of up to 3 add() calls (kind x name x any value) from an empty or parser-style container equals the ordered reference model, groups_of in message order; traversal of scalars, sets of <=3, collections of 3 in every insertion order', BMC),
 }
 
 NOT_APPLICABLE = {
     'C11': 'HTTP clients over sockets, reqwest/hyper/tokio and ureq: I/O, FFI and threads that neither CBMC nor an SMT encoding of MIR can execute; the IPP-level halves are covered by C04/C06/C07/C08',
     'C12': 'certificate validation happens inside native-tls/OpenSSL (FFI) and rustls/ring (assembly) during live handshakes; nothing encodable for a solver',
     'C15': 'a cost/complexity statement over unbounded size families; bounded model checking has no cost semantics and cannot distinguish linear from quadratic at solver-reachable sizes',
+    'C05': 'async state machines do not discharge under Kani/CBMC here: message-level async parsing and even single async reader primitives (read_value polled through a no-op waker, futures pinned on the stack) ran past 15 min / 8 GB in every configuration tried (DESIGN.md 2/C05); the shared ParserState and the blocking twins are covered by C04/C06/C07, the async payload bridges by C08',
     'C18': 'end-to-end behaviour of a binary (file/stdin I/O, HTTP client, live peer, exit status) cannot be executed symbolically; its solver-sized kernels are checked under C10 and C17',
     'C20': 'requires serde_json serialisation and parsing (number formatting/parsing, escaping, recursive descent, HashMap deserialisation) under CBMC: every part is far beyond the measured budget (one std HashMap insert already costs a minute)',
 }
@@ -57,7 +67,7 @@ def main():
             'guard': 'cfg(kani) (set by cargo kani) and --cfg ipp_verif (native replay of the URL-mapping wrapper)',
             'enable': 'cargo kani compiles /repo/ipp with cfg(kani); the replay crate builds /repo/ipp with the guard off (RUSTFLAGS="--cfg ipp_verif" only for the C14 wrapper)',
             'baseline_off_cmd': 'cd /repo && cargo test --workspace --no-fail-fast --offline',
-            'source_commits': ['2c0d47f'],
+            'source_commits': ['2c0d47f', 'f2aed9c', 'aac973f'],
             'add_only': True,
         },
         'engines': [
